@@ -109,6 +109,9 @@ class Summariser:
             raise Undecided("value of `%s` unknown" % nm)
         if k == "SubstNonTypeTemplateParmExpr" and ks:
             return self.val(ks[-1], fr, facts)
+        if k == "MemberExpr" and (not ks or self.is_this(ks[0], fr)) and n.get("referencedMemberDecl") and \
+                (self.d.by_id.get(n.get("referencedMemberDecl")) or {}).get("kind") == "FieldDecl":
+            return [(facts, Lin({(n.get("name") or "").lstrip("->."): 1}))]          # a data member of *this: an observable named by the member
         if k == "BinaryOperator" and n.get("opcode") in ("+", "-"):
             out = []
             for f1, a in self.val(ks[0], fr, facts):
